@@ -366,7 +366,7 @@ func (fc *FnCtx) frameFormula(pre, post *State, hv HeapVar, refs []Term) Term {
 	for _, r := range refs {
 		conds = append(conds, fmt.Sprintf("(not (= r!f %s))", r.S))
 	}
-	conds = append(conds, fmt.Sprintf("(< r!f %s)", fc.heapGet(pre, nextVar).S))
+	conds = append(conds, "(< 0 r!f)", fmt.Sprintf("(< r!f %s)", fc.heapGet(pre, nextVar).S))
 	return Term{fmt.Sprintf("(forall ((r!f Int)) (! (=> (and %s) (= (select %s r!f) (select %s r!f))) :pattern ((select %s r!f))))", strings.Join(conds, " "), after.S, before.S, after.S), SBool}
 }
 
